@@ -246,7 +246,7 @@ impl HuginnNetTcp {
         F: FnMut() -> Option<Result<Vec<u8>, HuginnNetTcpError>>,
     {
         // Connection tracker for TCP analysis (sequential mode)
-        let mut connection_tracker = TtlCache::new(self.max_connections);
+        let mut connection_tracker = TtlCache::new(uptime::tracker_capacity(self.max_connections));
 
         while let Some(packet_result) = packet_fn() {
             if let Some(ref cancel) = cancel_signal {
